@@ -897,7 +897,9 @@ class Collection(object):
                                 # can't mix modifiers with non-modifiers in
                                 # update
                                 raise ValueError('field names cannot start with $ [{}]'.format(k))
-                        _id = spec.get('_id', existing_document.get('_id'))
+                        # The replaced document keeps its own _id (for an upsert: the one of
+                        # the seed built from the filter); a condition on _id is not a value.
+                        _id = existing_document.get('_id')
                         existing_document.clear()
                         if _id is not None:
                             existing_document['_id'] = _id
@@ -908,7 +910,7 @@ class Collection(object):
                                 _validate_data_fields(document)
                             BSON.encode(document, check_keys=check_keys)
                         existing_document.update(self._internalize_dict(document))
-                        if existing_document['_id'] != _id:
+                        if _id is not None and existing_document['_id'] != _id:
                             raise OperationFailure(
                                 'The _id field cannot be changed from {0} to {1}'
                                 .format(existing_document['_id'], _id))
@@ -920,7 +922,7 @@ class Collection(object):
                 first = False
             # if empty document comes
             if not document:
-                _id = spec.get('_id', existing_document.get('_id'))
+                _id = existing_document.get('_id')
                 existing_document.clear()
                 if _id is not None:
                     existing_document['_id'] = _id
